@@ -355,6 +355,13 @@ def run(ctx):
         ctx.decide(bool(copied_), "C11.restore", rfc.ident, loc_of(rfc), "the restored history is a deep copy of the checkpoint's entry (the run appends to it)",
                    f"the restored history is {T.show(hv_)[:100] if hv_ else 'not set'} -- the object inside the caller's checkpoint dictionary itself: the resumed run appends every further "
                    "iteration to it, so the checkpoint is rewritten while it is being resumed from, and resuming from the same dictionary again does not reproduce the run", disc="history|owned")
+        # the population handed back is the checkpointed one: converted / relabelled, but not resampled, selected from or enlarged -- a population redrawn
+        # on restore is never recorded, so the first iteration after the resume works on a population that is in no checkpoint and no history
+        pop_ = rx[1][0]
+        redrawn = [x_ for x_ in T.subterms(pop_) if x_ and x_[0] == "f" and x_[1] in ("method:resample", "method:rejection_sample", "method:concatenate", "method:__getitem__")]
+        ctx.decide(not redrawn, "C11.restore", rfc.ident, loc_of(rfc), "the restored population is the checkpointed population (not redrawn)",
+                   f"restore_from_checkpoint applies {redrawn[0][1][7:] if redrawn else ''}() to the checkpointed population before handing it back: the run continues from a population "
+                   "that differs from the checkpointed (and recorded) one, so the next iteration's ESS and incremental ratio belong to a population nobody stored", disc="samples|redrawn")
         for nm, (val_, key_, base_, where) in exact.items():
             ctx.decide(getter(val_, key_, base_), "C11.restore", rfc.ident, loc_of(rfc), f"whenever the checkpoint holds it, the restored {nm} is exactly {where}",
                        f"with a checkpoint in the layout build_checkpoint_state writes, the restored {nm} is {T.show(val_)[:160] if val_ else 'not set'}, not {where}: "
@@ -1080,6 +1087,10 @@ MUTANTS += [
 ]
 MUTANTS += [
     M("an extra named like a base payload entry", _B, "\"sampler_kwargs\": getattr(self, \"sampler_kwargs\", None),\n        }", "\"sampler_kwargs\": getattr(self, \"sampler_kwargs\", None),\n            \"meta\": {\"note\": \"smc\"},\n        }", "C11.keys"),
+]
+MUTANTS += [
+    M("restore resamples the checkpointed population", _B, "samples = SMCSamples.from_samples(\n            samples, xp=self.xp, beta=beta, dtype=self.dtype\n        )\n        return samples, beta, iteration",
+      "samples = SMCSamples.from_samples(\n            samples, xp=self.xp, beta=beta, dtype=self.dtype\n        )\n        samples = samples.resample(beta, rng=self.rng)\n        return samples, beta, iteration", "C11.restore"),
 ]
 NEUTRALS = [
     M("payload metadata defaults to an empty dict that is copied before use", "src/aspire/samplers/base.py", "meta: dict | None = None,\n    ) -> dict:", "meta: dict = {},\n    ) -> dict:",
